@@ -305,6 +305,82 @@ def run_paths(ctx, impl, thorough):
     return n, len(set(reqs))
 
 
+def run_include_resolvers(ctx, model, impl, thorough):
+    """RESOLVER KIND: every include scenario (acyclic, diamond, self, mutual, missing module; at root, inside a subroutine,
+    nested in a block; include strings with / without .vcl, through a directory or an include path) through (a) the in-memory
+    resolver whose source name is the include string, (b) a stub resolver whose source name differs from it, (c) the real
+    resolver.NewFileResolvers on files on disk, and (d) the `falco test` process.  Module identity = the include string as
+    written (Model/EvalInclude.v): every spelling is a module of the model.  Oracle: ends within the watchdog; error or not
+    (and the number of statements that ran) as the model says."""
+    import shutil
+    import subprocess
+    rng = ctx.rng
+    stats = {}
+    tmp = os.path.join(V.BUILD, "tmp")
+    os.makedirs(tmp, exist_ok=True)
+    env = dict(os.environ, VERIF_TMP=tmp)
+    graphs = [simgen.gen_spelled_includes(rng, stats, k) for k in ("acyclic", "diamond", "self", "mutual", "random") for _ in range(4)]
+    graphs += [simgen.gen_spelled_includes(rng, stats) for _ in range(3000 if thorough else 130)]
+    cases = [(g, res) for g in graphs for res in ("map", "stub", "file")]
+    get = "GET=%s" % "/".encode().hex()
+    ireq = [simgen.spelled_render(*g, res) + " " + get for g, res in cases]
+    mreq = [simgen.spelled_model(g[0], g[1], g[2]) for g, res in cases]
+    irep = EU.run_sharded(impl + ["simrun"], ireq, hang_s=5, mem_kb=4_000_000, max_failures=10, env=env)
+    mrep = EU.run_sharded([model], mreq, hang_s=60)
+    out = {}
+    for (g, res), ir, mr in zip(cases, irep, mrep):
+        files, bodies, top, root, nested = g
+        replay = {"resolver": res, "files": {f: bodies[f] for f in files}, "top": top, "root_level": root, "nested_in_block": nested,
+                  "modules": simgen.spelled_render(*g, res)[:6000], "impl": ir, "model": mr}
+        if _bad(ir):
+            ctx.violation("include expansion through the %s resolver does not end in a response or a runtime error: %s" % (res, (ir or "no reply")[:120]), replay)
+            continue
+        st, rs, er, cl, lg = ir.split()[0].split(":")
+        exp = (mr or "").split()
+        ok = nested or (exp[:1] == ["err"] and er == "1") or (exp[:1] == ["ok"] and er == "0" and (root or exp[1] == lg))
+        key = "%s %s" % (res, "nested (totality only)" if nested else ("agree" if ok else "differ"))
+        out[key] = out.get(key, 0) + 1
+        if not ok:
+            ctx.violation("include expansion through the %s resolver differs from Model/EvalInclude.v: interpreter %s, model %s" % (res, ir.split()[0], mr), replay)
+    # (d) the falco CLI as a process, on files on disk
+    procs = 0
+    for gi, g in enumerate(graphs[:60 if thorough else 14]):
+        files, bodies, top, root, nested = g
+        d = os.path.join(tmp, "cli%d_%d" % (os.getpid(), gi))
+        shutil.rmtree(d, ignore_errors=True)
+        os.makedirs(d)
+        mods = simgen.spelled_render(files, bodies, top, root, nested, "file").split(":", 1)[1]
+        for m in mods.split(","):
+            name, hx = m.split("=")
+            fp = os.path.join(d, name + ".vcl")
+            os.makedirs(os.path.dirname(fp), exist_ok=True)
+            with open(fp, "w") as f:
+                f.write(bytes.fromhex(hx).decode().replace("__BACKEND_HOST__", "127.0.0.1").replace("__BACKEND_PORT__", "1"))
+        with open(os.path.join(d, "main.test.vcl"), "w") as f:
+            f.write("// @scope: recv\nsub test_recv {\n  testing.call_subroutine(\"vcl_recv\");\n}\n")
+        cmd = [os.path.join(V.BUILD, "falco"), "test"] + (["-I", os.path.join(d, "sub")] if os.path.isdir(os.path.join(d, "sub")) else []) + [os.path.join(d, "main.vcl")]
+        procs += 1
+        try:
+            p = subprocess.run(cmd, stdout=subprocess.PIPE, stderr=subprocess.STDOUT, text=True, timeout=20)
+            txt = p.stdout
+            mr = mrep[3 * gi]
+            recursive = "recursive include" in txt or "Failed to resolve include" in txt or "failed to include" in txt.lower()
+            if "panic:" in txt or "fatal error" in txt:
+                ctx.violation("falco test crashes on an include graph: %s" % txt.strip().splitlines()[0][:160], {"dir_listing": sorted(os.listdir(d)), "modules": mods[:6000], "output": txt[:2000]})
+            elif not nested and (mr or "").startswith("err") != recursive:
+                ctx.violation("falco test and Model/EvalInclude.v disagree on an include graph (model %s): %s" % (mr, txt.strip()[:200]),
+                              {"modules": mods[:6000], "output": txt[:2000], "model": mr})
+            out["cli " + ("include error" if recursive else "ran")] = out.get("cli " + ("include error" if recursive else "ran"), 0) + 1
+        except subprocess.TimeoutExpired:
+            ctx.violation("falco test does not end within 20 s on an include graph", {"modules": mods[:6000], "files": files, "top": top})
+        shutil.rmtree(d, ignore_errors=True)
+    ctx.coverage["include_resolvers"] = {"graphs": len(graphs), "runs": len(cases), "falco_test_processes": procs, "outcomes": dict(sorted(out.items())),
+                                         "resolver_kinds": ["map (source name = include string)", "stub (source name differs)", "file (resolver.NewFileResolvers on disk)", "falco test process"],
+                                         "module_identity": "the include string as written; spellings m, m.vcl, sub/m, m via include path are distinct modules with one content",
+                                         "generator": dict(sorted(stats.items()))}
+    return len(cases) + procs, len(set(ireq))
+
+
 def run_graphs(ctx, model, impl, thorough):
     """PROGRAM SIZE / SHAPE for the static passes before execution (CheckFastlyCallTreeLimit, declarations): call graphs
     of 10-100 (and 1000) subroutines, fan-out 1-3, cycles of length 1-50, ladders, deep chains.  Oracle: the request ends
@@ -428,6 +504,9 @@ def run(ctx):
     lap("lifecycle paths")
     n7, d7 = run_builtin_models(ctx, model, impl, thorough)
     lap("builtin models")
+    n8, d8 = run_include_resolvers(ctx, model, impl, thorough)
+    lap("include resolvers")
+    n7, d7 = n7 + n8, d7 + d8
     ctx.coverage["seconds_per_part"] = timing
     n3, d3 = n3 + n4 + n5 + n6 + n7, d3 + d4 + d5 + d6 + d7
     if not proved and not ctx.violations:
